@@ -157,6 +157,23 @@ Definition c01_ok (t : trans) : bool :=
       (if sweeps t r id d then e1 =? 0 else e1 =? e0 + donated t r id d))
     denoms) roles) (ids_upto (st_aseq (t_post t) + 2)).
 
+(* the module's own three invariants (keeper/invariants.go), as executable predicates over a state; [true] = holds.
+   The harness calls the Go functions on every state it reaches and the driver compares their verdicts with these *)
+Definition selling_pool_b (s : state) : bool :=
+  forallb (fun a => negb (status_eqb (a_status a) Started)
+                    || (a_sell_amt a <=? st_bal s (Escrow Selling (a_id a)) (a_sell_denom a))) (st_auctions s).
+Definition paying_pool_b (s : state) : bool :=
+  forallb (fun a => (if status_eqb (a_status a) Started
+                     then sumZ (map (pay_amount (a_pay_denom a)) (bids_of s (a_id a))) else 0)
+                    <=? st_bal s (Escrow Paying (a_id a)) (a_pay_denom a)) (st_auctions s).
+Definition vesting_pool_b (s : state) : bool :=
+  forallb (fun a => (if status_eqb (a_status a) VestingS
+                     then sumZ (map v_amt (filter (fun v => negb (v_released v)) (vqs_of s (a_id a)))) else 0)
+                    <=? st_bal s (Escrow Vesting (a_id a)) (a_pay_denom a)) (st_auctions s).
+Definition module_invariants_b (s : state) : bool := selling_pool_b s && paying_pool_b s && vesting_pool_b s.
+Definition c01_mi (t : trans) : bool := module_invariants_b (t_post t).
+Definition c01_all (t : trans) : bool := c01_ok t && c01_mi t.
+
 (* ---------------------------------------------------------------- C02 zero sum, charges *)
 Definition delta (t : trans) (a : addr) (d : N) : Z := st_bal (t_post t) a d - st_bal (t_pre t) a d.
 Definition zero_sum (t : trans) : bool :=
@@ -811,7 +828,7 @@ Definition c08_all (t : trans) : bool := c08_ok t && pending_ok (t_post t).
 
 (* ---------------------------------------------------------------- all of them *)
 Definition all_checks : list (N * (trans -> bool)) :=
-  [(1%N, c01_ok); (2%N, c02_all); (3%N, c03_ok); (4%N, c04_ok); (5%N, c05_all); (6%N, c06_ok); (7%N, c07_ok);
+  [(1%N, c01_all); (2%N, c02_all); (3%N, c03_ok); (4%N, c04_ok); (5%N, c05_all); (6%N, c06_ok); (7%N, c07_ok);
    (8%N, c08_all); (9%N, c09_ok); (10%N, c10_ok); (11%N, c11_ok); (12%N, c12_ok); (13%N, c13_ok);
    (15%N, c15_ok); (16%N, c16_ok); (17%N, c17_ok); (18%N, c18_ok); (19%N, c19_ok)].
 Definition failing (t : trans) : list N :=
